@@ -49,16 +49,23 @@ FUNCTIONS = {
 CLASSES.update({
   'MuxSocketTransportSink': dict(path='MuxSocketTransportSink', bases=['ClientMessageSink'], fields={
     '_tag_map': 'dict[int,tuple[ClientMessageSinkStack,real,Props]]', '_tag_pool': 'TagPool',
-    '_state': 'int', '_open_result': 'AsyncResult?', '_send_queue': 'Queue', '_socket': 'Socket',
-    '_greenlets': 'any'}),
+    '_state': 'int', '_open_result': 'AsyncResult?', '_send_queue': 'Queue', '_socket': 'MuxSocket',
+    '_greenlets': 'list[Greenlet]'}),
   'Queue': dict(extern=True, path=None, bases=[], fields={}),
   'Socket': dict(extern=True, path=None, bases=[], fields={'connected': 'bool', 'host': 'any', 'port': 'int', 'g_epoch': 'int', 'g_written': 'int'}, ghost=['g_epoch', 'g_written']),
   'Stream': dict(extern=True, path=None, bases=[], fields={}),
+  # the mux transport's socket: reads and writes block (other greenlets run meanwhile)
+  'MuxSocket': dict(extern=True, path=None, bases=['Socket'], fields={}),
 })
 
 PREDICATES.update({
   # the tags awaiting an answer are exactly the leased ones
-  'MuxInv': (['s'], 'TagPoolInv(s._tag_pool) and forall(t, "int", (t in s._tag_map) == leased(s._tag_pool, t))'),
+  # every tag awaiting an answer is leased; while the transport is not closed the converse holds too
+  # (a shutdown fails and forgets all in-flight requests; the pool is replaced on the next open)
+  'MuxInv': (['s'], 'TagPoolInv(s._tag_pool) and allocated(s._tag_map) and allocated(s._tag_pool) and '
+                    'forall(t, "int", implies(t in s._tag_map, leased(s._tag_pool, t))) and '
+                    'implies(s._state != ChannelState.Closed, forall(t, "int", implies(leased(s._tag_pool, t), t in s._tag_map))) and '
+                    'implies(s._state == ChannelState.Closed, forall(t, "int", not (t in s._tag_map)))'),
 })
 
 _MUX_MOD = ['dict[int,tuple[ClientMessageSinkStack,real,Props]]', 'set[int]']
@@ -82,6 +89,7 @@ FUNCTIONS.update({
     requires=['MuxInv(self)'],
     ensures=['MuxInv(self)', 'tag not in self._tag_map',
              'forall(t, "int", implies(t != tag, (t in self._tag_map) == old(t in self._tag_map)))',
+             'implies(not old(tag in self._tag_map), unchanged("set[int]") and unchanged("TagPool._next"))',
              ],
     modifies=_MUX_MOD + ['deque[tuple[AnySink,any]]', 'AnySink.g_invoked', 'Props.tag', 'Props.has_tag'],
     allocates=True,
@@ -124,7 +132,9 @@ FUNCTIONS.update({
     captures={'g_body': 'int', 'g_bodylen': 'int'},
     buffers={'stream': 'braw(g_body, g_bodylen)'},
     requires=['g_bodylen >= 0 and g_bodylen <= 2147483643', 'allocated(msg.properties)', 'allocated(self._send_queue)',
-              'has_key_rec(headers)', '-128 <= headers["__MessageType"] and headers["__MessageType"] <= 127'],
+              'has_key_rec(headers)', '-128 <= headers["__MessageType"] and headers["__MessageType"] <= 127',
+              # only one-way messages (discards) are sent without a reply stack
+              'implies(sink_stack is None, msg.is_one_way)'],
     ensures=['MuxInv(self)',
              # one-way messages (discards) lease nothing
              'implies(msg.is_one_way and old(self._state != ChannelState.Idle or self._open_result is None), forall(t, "int", (t in self._tag_map) == old(t in self._tag_map)) and unchanged("set[int]") and unchanged("TagPool._next") and unchanged("Props.tag") and unchanged("Props.has_tag"))'],
@@ -226,4 +236,94 @@ FUNCTIONS.update({
     modifies=['Props.tag', 'Props.has_tag', '$cls'], allocates=True,
     props=['C11', 'C12', 'C01'],
   ),
+})
+
+# ---------------------------------------------------------------------------- shutdown and the I/O loops (C08)
+CLASSES.update({
+  'ClientError': dict(file='scales/message.py', path='ClientError', bases=[], fields={}),
+})
+
+FUNCTIONS.update({
+  'MuxSocketTransportSink.isActive': dict(cls='MuxSocketTransportSink', inline=True),
+  # the first shutdown of an active transport closes it, fails every in-flight request once and
+  # forgets them; later shutdowns do nothing
+  'MuxSocketTransportSink._Shutdown': dict(
+    cls='MuxSocketTransportSink', params={'reason': 'any', 'fault': 'bool'},
+    locals={'sink_stack': 'ClientMessageSinkStack'},
+    requires=['MuxInv(self)', 'allocated(self._on_faulted) and allocated(self._socket)'],
+    ensures=['MuxInv(self)', 'self._state == ChannelState.Closed',
+             'implies(old(self._state) == ChannelState.Closed, unchanged("Observable.value") and self._tag_map == old(self._tag_map) and self._socket.g_epoch == old(self._socket.g_epoch))',
+             'implies(old(self._state) != ChannelState.Closed, not self._socket.connected and forall(t, "int", not (t in self._tag_map)))',
+             'implies(old(self._state) != ChannelState.Closed and fault, self._on_faulted.value is not None)',
+             'implies(not fault, unchanged("Observable.value"))'],
+    modifies=['MuxSocketTransportSink._state', 'MuxSocketTransportSink._tag_map', 'MuxSocketTransportSink._open_result', 'MuxSocketTransportSink._send_queue',
+              'MuxSocketTransportSink._greenlets', 'Socket.connected', 'Socket.g_epoch', 'Observable.value', 'dict[int,tuple[ClientMessageSinkStack,real,Props]]', 'list[Greenlet]',
+              'deque[tuple[AnySink,any]]', 'AnySink.g_invoked', 'MethodReturnMessage.error', 'MethodReturnMessage.return_value', 'MethodReturnMessage.stack',
+              'AsyncResult.g_sets', 'AsyncResult.value', 'AsyncResult.exception', 'AsyncResult.g_ready', '$cls'],
+    allocates=True,
+    loops={
+      0: dict(invariant=['True'], modifies=[]),
+      1: dict(invariant=['self._state == ChannelState.Closed', 'not self._socket.connected', 'msg.error is not None',
+                         'self._tag_map == old(self._tag_map)', 'forall(t, "int", (t in self._tag_map) == old(t in self._tag_map))',
+                         'TagPoolInv(self._tag_pool)', 'self._tag_pool == old(self._tag_pool)',
+                         'implies(fault, self._on_faulted.value is not None)', 'implies(not fault, unchanged("Observable.value"))'],
+              modifies=['deque[tuple[AnySink,any]]', 'AnySink.g_invoked'], allocates=True),
+    },
+    ghost=[
+      # every stack registered in the tag map receives the error message (one per in-flight request)
+      {'before': 'sink_stack.AsyncProcessResponseMessage(msg)', 'do': ['prove(msg.error is not None, "in-flight-request-failed-with-an-error")']},
+    ],
+    props=['C08'],
+  ),
+})
+
+FUNCTIONS.update({
+  # the only writer of the connection: one queued frame at a time, the timeout decision first,
+  # any failure shuts the transport down and ends the loop
+  'MuxSocketTransportSink._SendLoop': dict(
+    cls='MuxSocketTransportSink', conc='Mux', guar=[],
+    locals={'dct': 'Props'},
+    requires=['MuxInv(self)', 'allocated(self._on_faulted) and allocated(self._socket) and allocated(self._send_queue)'],
+    ensures=['MuxInv(self)', 'self._state == ChannelState.Closed'],
+    modifies=['*'], allocates=True,
+    loops={0: dict(invariant=['MuxInv(self)', 'allocated(self._on_faulted) and allocated(self._socket) and allocated(self._send_queue)'],
+                   modifies=['*'], allocates=True)},
+    yields=[{'at': 'self._send_queue.get()', 'rely': ['allocated(self._on_faulted) and allocated(self._socket) and allocated(self._send_queue)']},
+            {'at': 'self._socket.write(payload)', 'rely': ['allocated(self._on_faulted) and allocated(self._socket) and allocated(self._send_queue)']}],
+    ghost=[
+      {'after': 'payload, dct = self._send_queue.get()', 'do': ['g_decided = False', 'assume(allocated(dct) and implies("__Tag" in dct, dct["__Tag"] is not None))']},
+      {'before': 'if self._HandleTimeout(dct):', 'do': ['g_decided = True']},
+      # C12: a frame is written only after _HandleTimeout said the caller has not timed out (and has
+      # armed the discard handler for it)
+      {'before': 'self._socket.write(payload)', 'do': ['prove(g_decided, "timeout-decision-before-every-write")']},
+      {'before': 'break', 'do': ['prove(self._state == ChannelState.Closed, "failure-shuts-the-transport-down")']},
+    ],
+    props=['C08', 'C12'],
+  ),
+
+  # the only reader: frame by frame; any failure (error, EOF) shuts the transport down and ends the loop
+  'MuxSocketTransportSink._RecvLoop': dict(
+    cls='MuxSocketTransportSink', conc='Mux', guar=[],
+    requires=['MuxInv(self)', 'allocated(self._on_faulted) and allocated(self._socket)'],
+    ensures=['MuxInv(self)', 'self._state == ChannelState.Closed'],
+    modifies=['*'], allocates=True,
+    loops={0: dict(invariant=['MuxInv(self)', 'allocated(self._on_faulted) and allocated(self._socket)'], modifies=['*'], allocates=True)},
+    yields=[{'at': "self._socket.readAll(4)", 'rely': ['allocated(self._on_faulted) and allocated(self._socket)']},
+            {'at': 'self._socket.readAll(sz)', 'rely': ['allocated(self._on_faulted) and allocated(self._socket)']}],
+    ghost=[
+      # the body handed to the reply processor has exactly the announced length
+      {'after': 'buf = BytesIO(self._socket.readAll(sz))', 'do': ['prove(blen(content(buf)) == sz, "frame-body-has-the-announced-length")']},
+      {'before': 'break', 'do': ['prove(self._state == ChannelState.Closed, "failure-shuts-the-transport-down")']},
+    ],
+    props=['C08', 'C13'],
+  ),
+})
+
+EXTERNS.update({
+  'Queue.get': dict(params=[], returns='tuple[bytes,Props]', yields=True, may_raise=['Exception'],
+                    notes='blocks until an item is queued (items are (frame bytes, message properties))'),
+  'Queue.qsize': dict(params=[], returns='int'),
+  'MuxSocket.readAll': dict(params=[('sz', 'int')], returns='bytes', may_raise=['Exception', 'EOFError'], yields=True, ensures=['blen(result) == sz']),
+  'MuxSocket.write': dict(params=[('data', 'bytes')], may_raise=['Exception'], yields=True, modifies=['Socket.g_written'],
+                          ensures=['self.g_written == old(self.g_written) + 1']),
 })
